@@ -33,7 +33,8 @@ fn list(v: &[u32]) -> String {
 pub fn tail(real: &Real) -> String {
     let img = real.image();
     let Some(comp) = real.comp.as_ref() else { return "-".into() };
-    let d = comp.verif_dump();
+    // a library panic under the write lock poisons it: the dump then panics too
+    let Ok(d) = catch(|| comp.verif_dump()) else { return "poisoned".into() };
     let root = &d.dir_entries[0];
     format!(
         "P {} {} | C {} {} {} {} {} {} {} {} {}",
@@ -406,6 +407,9 @@ pub fn huge(dir: &str, ops_path: &str, impl_path: &str) -> Vec<String> {
     let mut violations = vec![];
     for (i, line) in lines.iter().enumerate() {
         let observed = real.exec(line);
+        if observed == "panic" {
+            violations.push(format!("history 0 (seed 0) step {}: {} panicked: {}", i, short(line), real.last_panic.clone().unwrap_or_default().chars().take(160).collect::<String>()));
+        }
         if let Some(exp) = model.apply(line) {
             if exp != observed {
                 violations.push(format!("history 0 (seed 0) step {}: {} gave {} but the abstract tree model says {}", i, short(line), short(&observed), short(&exp)));
@@ -413,9 +417,14 @@ pub fn huge(dir: &str, ops_path: &str, impl_path: &str) -> Vec<String> {
         }
         writeln!(ops_out, "{}", line).unwrap();
         writeln!(impl_out, "{} | {}", observed, tail(&real)).unwrap();
+        if observed == "panic" {
+            break;
+        }
     }
-    if let Some(v) = reopen_violation(&mut real) {
+    if violations.is_empty() {
+      if let Some(v) = reopen_violation(&mut real) {
         violations.push(format!("history 0 (seed 0) step {}: after the huge history: {}", lines.len(), v));
+      }
     }
     std::fs::write(format!("{}/huge_v3.cfb", dir), real.image()).unwrap();
     std::fs::write(ops_path, ops_out).unwrap();
